@@ -82,6 +82,9 @@ pub struct ClReq {
     /// the server closes the connection after the complete response although it is persistent
     pub close_after: bool,
     pub consume: Consume,
+    /// bytes to send instead of the serialized response (used by the C19 rig only)
+    #[serde(default)]
+    pub raw: Option<Vec<u8>>,
 }
 
 #[derive(Clone, Debug, Serialize, Deserialize)]
@@ -101,7 +104,7 @@ fn has_body(r: &ClReq) -> bool {
 }
 
 /// Independent serializer of the scripted response.
-fn wire(id: usize, r: &ClReq) -> Vec<u8> {
+pub(crate) fn wire(id: usize, r: &ClReq) -> Vec<u8> {
     let mut s = format!("HTTP/1.{} {} X\r\nx-id: {}\r\n", if r.http10 { 0 } else { 1 }, r.status, id);
     match r.conn_hdr {
         ConnHdr::Absent => {}
@@ -231,21 +234,21 @@ struct SrvConn {
 }
 
 #[derive(Default)]
-struct Out {
+pub(crate) struct Out {
     outcomes: Vec<Outcome>,
     /// per request: (connection, position on it)
     placed: BTreeMap<usize, (usize, usize)>,
     conns: usize,
     max_live: usize,
-    steps: u64,
-    stuck: Option<String>,
-    tape: Vec<u32>,
+    pub(crate) steps: u64,
+    pub(crate) stuck: Option<String>,
+    pub(crate) tape: Vec<u32>,
     stats: BTreeMap<&'static str, u64>,
     foreign: Vec<(usize, String)>,
     log: Vec<String>,
 }
 
-async fn run_world(sc: ClScenario, tape: Tape, narrative: bool) -> Out {
+pub(crate) async fn run_world(sc: ClScenario, tape: Tape, narrative: bool) -> Out {
     let tape = Rc::new(RefCell::new(tape));
     let clock = Clock::new();
     let n = sc.reqs.len();
@@ -351,7 +354,10 @@ async fn run_world(sc: ClScenario, tape: Tape, narrative: bool) -> Out {
                                 // the server is about to close (or has closed): the request is never answered
                             } else if sv.pending.is_empty() {
                                 let r = &sc.reqs[id];
-                                let mut w = wire(id, r);
+                                let mut w = match &r.raw {
+                                    Some(raw) => raw.clone(),
+                                    None => wire(id, r),
+                                };
                                 if let Some((at, kind)) = r.cut_at {
                                     w.truncate(at.min(w.len().saturating_sub(1)));
                                     sv.then_end = Some(kind);
@@ -518,6 +524,7 @@ fn gen_req(rng: &mut Rng, i: usize) -> ClReq {
             1 => Consume::DropAfterChunks(rng.range(1, 3)),
             _ => Consume::All,
         },
+        raw: None,
     };
     // keep the known HTTP/1.1 no-length-no-close class rare so that most runs explore the rest
     if unframed11(&r) && !rng.chance(1, 5) {
